@@ -262,6 +262,14 @@ def atolLoop (MIN MAX : Int) : List Byte → Int → Int → Option Int
         | b :: rest' => atolLoop MIN MAX rest' (b.toNat : Int) (m - (c - 48))
     else some total
 
+/-- `if (c == '-' || c == '+') c = *p++;` -/
+def atolSign (c : Int) (rest : List Byte) : Option (Int × List Byte) :=
+  if c = 45 ∨ c = 43 then
+    match rest with
+    | [] => none
+    | b :: r => some ((b.toNat : Int), r)
+  else some (c, rest)
+
 def atol (w : Nat) (mem : List Byte) : Option Int :=
   let MAX : Int := 2 ^ (w - 1) - 1
   let MIN : Int := -(2 ^ (w - 1))
@@ -269,13 +277,7 @@ def atol (w : Nat) (mem : List Byte) : Option Int :=
   | none => none
   | some (c, rest) =>
     let sign := c
-    let cr : Option (Int × List Byte) :=
-      if c = 45 ∨ c = 43 then
-        match rest with
-        | [] => none
-        | b :: r => some ((b.toNat : Int), r)
-      else some (c, rest)
-    match cr with
+    match atolSign c rest with
     | none => none
     | some (c, rest) =>
       match atolLoop MIN MAX rest c 0 with
